@@ -196,5 +196,28 @@ def c05_5(ctx: Ctx) -> RuleResult:
             ok = len(sorts) == 1 and len(subs) >= 2 and has_dot
             res.add(g, c, "values[..., sort] . objective_weights[sort] with the same `sort`", ok,
                     "" if ok else "the weighted sort key mixes different index lists (or is not a weighted sum)", construct=f"{g.name}: sort key")
+            # the weighted sum may be skipped only when a single objective is configured (its normalised weight is 1):
+            # the condition of the dot product is about the number of configured weights, nothing else
+            from ..util import bool_nnf, path_condition
+
+            for dc in calls_in(g):
+                dt = X.at(g, dc)
+                if not (dt[0] == "call" and dt[1] == ("global", "numpy.dot") and contains(dt, lambda s: s[0] == "attr" and s[2] == "sort")):
+                    continue
+                st_ = dc
+                while parent(st_) is not None and not isinstance(st_, ast.stmt):
+                    st_ = parent(st_)
+                bad = None
+                for t_, pol in path_condition(ctx, g, st_):
+                    g_ = bool_nnf(t_ if pol else ("unary", "not", t_))
+                    for it in (g_[1] if g_[0] == "and" else [g_]):
+                        atom = it[1] if it[0] == "lit" else it
+                        about_weights = contains(atom, lambda s: s[0] == "attr" and s[2] in ("size", "shape") and contains(s, lambda y: y[0] == "attr" and y[2] == "weights"))
+                        if not about_weights or contains(atom, lambda s: s[0] == "attr" and s[2] == "sort"):
+                            bad = atom
+                ok2 = bad is None
+                res.add(g, dc, "the objective weights are applied to the ranked objectives unless only one objective is configured", ok2,
+                        "" if ok2 else f"the weighted sum is taken only under `{show(bad, 70)}`: a single ranked objective of a multi-objective configuration loses its weight (and its sign)",
+                        construct=f"{g.name}: weights applied")
     res.floor = 2
     return res
